@@ -279,6 +279,9 @@ func (x *xl) lvalue(e ast.Expr) *types.Var {
 	if !ok {
 		x.fail(e, "assignment to %s, which is not a variable", id.Name)
 	}
+	if v.Parent() == x.pkg.Scope() {
+		x.fail(e, "assignment to the package-level variable %s (its new value would be lost)", id.Name)
+	}
 	return v
 }
 
@@ -294,6 +297,9 @@ func (x *xl) declare(obj types.Object) string {
 		if n == r {
 			n += "_"
 		}
+	}
+	if strings.HasPrefix(n, "go_") || strings.HasPrefix(n, "k_") || strings.HasPrefix(n, "tr_") || strings.Contains(n, "__") {
+		n += "_" // the name spaces of the generated definitions and temporaries
 	}
 	for base, i := n, 1; x.used[n]; i++ {
 		n = fmt.Sprintf("%s_%d", base, i)
@@ -903,7 +909,7 @@ func (x *xl) effect(callee, prim, errv string, g guards, k string, d int) string
 	if prim != "" {
 		return guarded(g, "let out := out ++ "+prim+" in let "+errv+" := false in"+ind(d)+k)
 	}
-	return guarded(g, "go_call "+callee+" (fun r => let '(out, "+errv+") := r in"+ind(d)+k+")")
+	return guarded(g, "go_call "+callee+" (fun r__ => let '(out, "+errv+") := r__ in"+ind(d)+k+")")
 }
 
 func (x *xl) stmt(s ast.Stmt, rest func() string, d int) string {
